@@ -8,6 +8,7 @@
 package simdjson
 
 import (
+	"bytes"
 	"errors"
 	"math"
 	"strconv"
@@ -55,6 +56,9 @@ func sameSlice[T any](a, b []T) bool {
 
 // elems names the backing array of a slice in assigns clauses.
 func elems[T any](s []T) []T { return s }
+
+// bytesEq: content equality of two byte ranges (the engine's uninterpreted bytes_eq predicate, as bytes.Equal in code)
+func bytesEq(a, b []byte) bool { return bytes.Equal(a, b) }
 
 // inKeys: membership of key bytes in a key filter.
 func inKeys(m map[string]struct{}, k []byte) bool {
@@ -1158,6 +1162,51 @@ func specDecodedLen(buf []byte) uint64 { _, n, _ := specScan(buf); return n }
 // The scanner kernel (asmvc: _parse_string_validate_only window obligations against S4): on success the source
 // length L it found is the offset of the closing quote, so the quote lies inside buf; the decoded length never
 // exceeds the source length; needCopy is only ever raised.
+//@ func memHash
+//@   props C11
+//@   summary
+//@   trusted unsafe code (runtime.memhash through go:linkname): the result is treated as an arbitrary uint64
+
+// String table of the serializer (C11): the offset handed out designates, inside the string block being built, a copy
+// of the string (either an earlier identical one, compared byte for byte, or the bytes just appended); the block only
+// grows, so offsets handed out earlier stay valid. Holds for any hash function (memHash is unsafe code, its result is
+// treated as unknown).
+//@ func (*Serializer).indexString
+//@   props C11
+//@   requires len(s.stringBuf) < 1<<40 && len(sb) < 1<<31
+//@   ensures inbuf: result+uint64(len(sb)) <= uint64(len(s.stringBuf))
+//@   ensures same: bytesEq(s.stringBuf[int(result):int(result)+len(sb)], sb) || forall(0, len(sb), func(j int) bool { return s.stringBuf[int(result)+j] == sb[j] })
+//@   ensures grows: len(s.stringBuf) >= len(old(s.stringBuf)) && forall(0, len(old(s.stringBuf)), func(j int) bool { return s.stringBuf[j] == old(s.stringBuf)[j] })
+//@   safe
+
+// Value-level statement of the encoder loop (C11): what was appended to the values stream and the tag recorded for the
+// tape entry just consumed. Together with the decoder's verbatim assertions (Deserialize assert#number / #flagged /
+// #stringwords) and the per-tag widths (codec) this pins the entry-by-entry correspondence; the composition to the
+// whole-tape round trip is prose.
+func serEntryOK(T []uint64, off int, ntype Tag, vb []byte) bool {
+	if ntype == TagInteger || ntype == TagUint || ntype == TagFloat {
+		return off >= 1 && off < len(T) && tagOf(T[off-1]) == ntype && implies(ntype == TagFloat, payOf(T[off-1]) == 0) &&
+			len(vb) >= 8 && le64(vb, len(vb)-8) == T[off]
+	}
+	if ntype == tagFloatWithFlag {
+		return off >= 1 && off < len(T) && tagOf(T[off-1]) == TagFloat && payOf(T[off-1]) != 0 &&
+			len(vb) >= 16 && le64(vb, len(vb)-16) == T[off-1] && le64(vb, len(vb)-8) == T[off]
+	}
+	if ntype == TagString {
+		return off >= 1 && off < len(T) && tagOf(T[off-1]) == TagString && len(vb) >= 16 && le64(vb, len(vb)-8) == T[off]
+	}
+	if ntype == TagObjectStart || ntype == TagArrayStart || ntype == TagRoot {
+		return off < len(T) && tagOf(T[off]) == ntype && len(vb) >= 8 && le64(vb, len(vb)-8) == payOf(T[off])-uint64(off)
+	}
+	return off < len(T) && tagOf(T[off]) == ntype
+}
+
+//@ func (*Serializer).Serialize variant values
+//@   props C11
+//@   opt safety off
+//@   requires len(pj.Tape) < 1<<40 && pj.Strings != nil
+//@   assertat `s.tagsBuf[tagsOff] = uint8(ntype)` entry: serEntryOK(pj.Tape, off, ntype, s.valuesBuf)
+
 // Serialized tape format (documented in Serialize): per tag the number of value bytes in the values stream and the
 // number of tape words the entry occupies. tagFloatWithFlag is 'e'. Decided by the frame engine (codec#widths-agree):
 // Serialize appends / consumes and Deserialize reads / produces exactly these amounts for every tag, all other tags
